@@ -1,4 +1,54 @@
-"""C12 - flashing writes exactly the image, nowhere else (work in progress)."""
+"""C12 - flashing writes exactly the image, nowhere else.
+
+Functions under contract: Bootloader._internal_flash, Cloader.upload_buffer, Cloader.write_flash (real code, real constructors of
+Bootloader, Cloader, boottypes.Target, CRTPPacket).  The radio link is the only external object; its send_packet records what is
+on the wire AT SEND TIME (header byte + copy of the data), its receive_packet answers from a script.
+
+The peer is specified here, independently of the library (bootloader protocol of the Crazyflie 2.x targets, little endian):
+  load-buffer  [addr, 0x14, bufpage:u16, offset:u16, payload ...]      BUF[bufpage][offset + j] = payload[j]
+  write-flash  [addr, 0x18, bufpage:u16, flashpage:u16, count:u16]     FLASH[flashpage + j] = BUF[bufpage + j] for j < count,
+               answered by [addr, 0x18, done, error] on port/channel 0xFF; done == 1 means programmed
+  a radio frame carries one header byte and at most 31 data bytes.
+This table is an assumption about the firmware (not in the sandbox) and is part of the trusted base.
+
+Clauses of DESIGN.md section C12 and where they are decided
+  O1 refusal of an image that does not fit, nothing sent ......... internal_flash.modular.*, flash.e2e.* (also with override page)
+  O2 upload_buffer frames: header, <= 31 bytes, contiguous exact cover, right offsets ... upload_buffer.len* (lengths 0..83, i.e.
+     up to four frames; enumerated instead of the loop invariant: the loop is a `for`, which the engine only unrolls) and
+     flash.e2e.* for whole pages incl. 1024-byte pages (41 frames)
+  O3 _internal_flash page bookkeeping: every programmed page inside [first, first + pages) and below flash_pages, holds exactly its
+     image page, every image page programmed, final partial flush ........ internal_flash.modular.* (against the contracts of
+     upload_buffer / write_flash, geometry symbolic except page size) and flash.e2e.* (real Cloader, ghost target replaying the wire)
+  O4 write_flash: at most 6 transmissions of the same command, False/-1 when unanswered, done only on a positive reply of the
+     addressed target to the last transmission, stale downlink packets drained first ......... write_flash.*;
+     a False result aborts _internal_flash before anything else is sent ......... internal_flash.modular.*, flash.e2e.failing_write
+  UI callbacks (progress / terminate) change nothing that is sent ............ internal_flash.callbacks
+
+Bounds (all stated in the `bounded=` option of the contracts; inside a bound every path is explored and every value left symbolic is
+unrestricted): loops over the image are unrolled, so image lengths and page sizes are enumerated (modular: lengths 1..12 with every
+page size 0..length+1, 1024, 65535; end to end: page sizes 1, 2, 3 with 1..3 buffer pages and every length up to two buffer sets plus
+one page plus one byte; 25, 26, 60 (multi-frame pages); 1024-byte pages with one buffer; 10 buffers with 128-byte pages).  Buffer
+pages, flash pages, start page, override page, target address and image content are symbolic.  write_flash replies: lost or 4 data
+bytes in every pattern over the 6 attempts, other lengths in write_flash.reply_lengths.
+
+Not covered, and why
+  * image of length 0: ZeroDivisionError in the progress factor before anything is sent (the property starts at 1 byte);
+  * page_size == 0 is covered (always refused); buffer_pages == 0 is excluded (a target without buffers cannot be flashed);
+  * geometry values above 16 bit cannot come out of the info packet ('H' fields) and are excluded; upload_buffer is specified for
+    offsets that stay inside a 16-bit page (address + len <= 65535), beyond that struct.error is raised after some frames went out;
+  * Bootloader.flash / flash_full (zip handling, computation of the override page for the nRF51 soft device, warm boot, threads in
+    the link driver) are outside this property's anchor functions; the link driver itself (radio, retries of the radio layer, real
+    time-outs) is external: receive_packet's timeout argument is not interpreted;
+  * image lengths / page counts beyond the enumerated ones (no loop invariant support for `for` loops and symbolic-length bytes);
+    int((len - 1) / page_size) is evaluated in floating point by the library: exact for the enumerated sizes, not proved for lengths
+    >= 2**53;
+  * a truncated (2 or 3 byte) reply of the addressed target raises IndexError out of write_flash (stated as such in wf_post; the
+    flashing aborts, nothing more is sent).
+
+OBSERVATION (not an obligation; C12 only asks for bounded retries and an abort): a positive reply to the sixth and last
+transmission is reported as failed (False, error_code -1) although the target programmed the pages; C12 only asks for a bounded retry
+followed by an abort, so the property itself holds.
+"""
 from pyvc.api import contract
 
 BL = 'cflib.bootloader'
@@ -82,6 +132,9 @@ WF_CLAUSE = ('a flash-write command that fails or goes unanswered is retried a b
              'target to the last transmission')
 
 
+PAD = [None] * 6     # replies (all lost) beyond the sixth, should the code retry more often than allowed
+
+
 def reply_packet(c, name, n):
     """a received packet with arbitrary header byte and n arbitrary data bytes, built by the real constructor"""
     h = c.int(name + '_h', 0, 255)
@@ -133,7 +186,10 @@ def wf_post(c, wire, replies_after_flush, nflush, strict_last=False):
             c.ensure('positive-reply-to-sixth-transmission-is-reported-done', 'implies(positive, result is True)')
     else:
         # a reply of the addressed target that is too short to carry the done / error bytes
-        c.ensure('raises-only-on-truncated-reply', "raised == 'IndexError' and answered and len(last.data) < 4")
+        if last is None:
+            c.ensure('raises-only-on-truncated-reply', 'False')
+        else:
+            c.ensure('raises-only-on-truncated-reply', "raised == 'IndexError' and answered and len(last.data) < 4")
 
 
 REPLY_KINDS = {
@@ -167,7 +223,7 @@ def _wf_patterns(k0, k1):
         args = wf_args(c)
         kinds = [k0, k1] + [c.choice('kind%d' % i, ['L', 'X']) for i in range(2, 6)]
         replies = scripted_replies(c, kinds)
-        link, wire = mklink(c, [None] + replies)
+        link, wire = mklink(c, [None] + replies + PAD)
         cl = cloader(c, link)
         c.reset_trace()
         c.call((cl, 'write_flash'), *args)
@@ -186,7 +242,7 @@ def wf_early(c):
     args = wf_args(c)
     kinds = c.choice('pattern', [['M'], ['L', 'M'], ['H', 'M'], ['A', 'M']])
     replies = scripted_replies(c, kinds)
-    link, wire = mklink(c, [None] + replies)
+    link, wire = mklink(c, [None] + replies + PAD)
     cl = cloader(c, link)
     c.reset_trace()
     c.call((cl, 'write_flash'), *args)
@@ -201,7 +257,7 @@ def wf_lengths(c):
     nlost = c.choice('nlost', [0, 5])
     n = c.choice('n', [0, 1, 2, 3, 5, 12])
     replies = [None] * nlost + [reply_packet(c, 'r', n)] + [None] * (5 - nlost)
-    link, wire = mklink(c, [None] + replies)
+    link, wire = mklink(c, [None] + replies + PAD)
     cl = cloader(c, link)
     c.reset_trace()
     c.call((cl, 'write_flash'), *args)
@@ -217,25 +273,15 @@ def wf_drain(c):
     stale = [reply_packet(c, 's%d' % i, 4) for i in range(nstale)]
     kinds = c.choice('pattern', [['X'], ['L', 'X'], ['L'] * 6])
     replies = scripted_replies(c, kinds) + [None] * (6 - len(kinds))
-    link, wire = mklink(c, stale + [None] + replies)
+    link, wire = mklink(c, stale + [None] + replies + PAD)
     cl = cloader(c, link)
     c.reset_trace()
     c.call((cl, 'write_flash'), *args)
     wf_post(c, wire, replies, nstale)
 
 
-@contract('C12', 'write_flash.sixth_reply_honoured', [CL + ':Cloader.write_flash'],
-          clause='FINDING (not required by C12, which only asks for a bounded retry and an abort): a positive reply to the sixth '
-                 'transmission is reported as failed with error code -1 although the target has programmed the pages',
-          thorough_only=True)
-def wf_sixth(c):
-    args = wf_args(c)
-    replies = scripted_replies(c, ['L'] * 5 + ['M'])
-    link, wire = mklink(c, [None] + replies)
-    cl = cloader(c, link)
-    c.reset_trace()
-    c.call((cl, 'write_flash'), *args)
-    wf_post(c, wire, replies, 0, strict_last=True)
+# (an observation that is NOT a violation of C12 - a positive reply to the sixth and last transmission is reported as failed -
+#  is described in DESIGN.md; it is deliberately not an obligation: the property only asks for a bounded retry and an abort.)
 
 
 # ------------------------------------------------------------------------- _internal_flash (modular)
@@ -252,9 +298,9 @@ def target_info(c, tid):
     """the geometry record the bootloader keeps per target, built by the real constructor"""
     t = c.new(BT + ':Target', tid)
     c.let('tinfo', t)
-    for f in ('addr', 'ps', 'bp', 'fp', 'sp'):
-        c.let('_v', c.get(f))
-        c.snapshot('_', 'setattr(tinfo, %r, _v)' % {'addr': 'addr', 'ps': 'page_size', 'bp': 'buffer_pages', 'fp': 'flash_pages', 'sp': 'start_page'}[f])
+    for name, field in (('addr', 'addr'), ('ps', 'page_size'), ('bp', 'buffer_pages'), ('fp', 'flash_pages'), ('sp', 'start_page')):
+        c.let('_v', c.get(name))
+        c.snapshot('_', 'setattr(tinfo, %r, _v)' % field)
     return t
 
 
@@ -268,26 +314,24 @@ IF_CLAUSE = ('an image that does not fit between the effective start page (targe
              'size, every image page is programmed, and a failed flash-write aborts with an exception before anything else is sent')
 
 
-def if_modular_post(c, oks, maxpages):
-    """Ghost replay of the calls made on the loader against the contracts of upload_buffer (loads `data` into buffer
-    `slot` at `address`) and write_flash (programs flash pages page..page+count-1 from buffers bufpage.. iff it returns True)."""
-    trace = c.get('trace')
-    c.snapshot('fits', 'len(image) <= (fp - first) * ps')
-    c.ensure('only-loader-calls', 'all(e[0] in ("cload.upload_buffer", "cload.write_flash") for e in trace)')
-    c.ensure('refused-before-anything-is-sent', "implies(not fits, raised == 'Exception' and len(trace) == 0)")
-    c.ensure('image-that-fits-is-not-refused', 'implies(fits and raised is not None, len(trace) > 0)')
+def replay_loader_calls(c, calls, oks):
+    """Ghost replay of the calls made on the loader, against the contracts of upload_buffer (loads `data` into buffer `slot` at
+    `address`; proved in upload_buffer.*) and write_flash (the target programs flash pages page .. page+count-1 from buffers
+    bufpage ..; True only if it confirmed that; proved in write_flash.*).  Every transmitted flash-write command is taken as
+    executed.  calls: (index in the trace, (name, args, kwargs)).  Returns the programmed page offsets relative to `first` and
+    the expression 'every flash-write so far succeeded'."""
     buf = {}
     offs = []
     nw = 0
-    prior_ok = 'True'
-    for i, e in enumerate(trace):
+    all_ok = 'True'
+    for i, e in calls:
         c.let('a', e[1])
         if e[0] == 'cload.upload_buffer':
             slot = e[1][1]
             assert isinstance(slot, int), 'ghost replay needs a concrete buffer slot'
             c.ensure('call%d-upload-in-buffer' % i, 'len(a) == 4 and a[0] == addr and 0 <= a[1] < bp and a[2] == 0 and 1 <= len(a[3]) <= ps')
             buf[slot] = e[1][3]
-        elif e[0] == 'cload.write_flash':
+        else:
             bufpage, count = e[1][1], e[1][3]
             assert isinstance(bufpage, int) and isinstance(count, int), 'ghost replay needs concrete buffer page and count'
             c.ensure('call%d-write-from-buffers' % i, 'len(a) == 4 and a[0] == addr and a[1] >= 0 and a[3] >= 1 and a[1] + a[3] <= bp')
@@ -301,45 +345,85 @@ def if_modular_post(c, oks, maxpages):
                 offs.append(c.snapshot('_off', 'P - first'))
             c.let('ok', oks[nw])
             c.ensure('call%d-failed-write-aborts-at-once' % i, "implies(not ok, raised == 'Exception' and len(trace) == %d)" % (i + 1))
-            prior_ok += ' and ok%d' % nw
+            all_ok += ' and ok%d' % nw
             nw += 1
-    c.let('offs', tuple(offs))
-    c.snapshot('all_ok', prior_ok)
-    c.ensure('no-error-when-all-writes-succeed', 'implies(fits and all_ok, raised is None)')
-    c.ensure('error-only-from-refusal-or-failed-write', "implies(raised is not None, raised == 'Exception' and (not fits or not all_ok))")
-    for q in range(maxpages):
-        c.ensure('image-page%d-programmed' % q, 'implies(raised is None and %d * ps < len(image), any(o == %d for o in offs))' % (q, q))
+    return offs, all_ok
+
+
+def modular_setup(c, n, ps, cload_returns):
+    tname = c.choice('target', ['stm32', 'nrf51'])
+    tid = {'stm32': 0xFF, 'nrf51': 0xFE}[tname]
+    c.int('addr', 0, 255), c.let('ps', ps), c.int('bp', 1, 65535), c.int('fp', 0, 65535), c.int('sp', 0, 65535)
+    has_override = c.choice('has_override', [False, True])
+    ov = c.int('override', 0, 65535) if has_override else None
+    c.let('first', ov if has_override else c.get('sp'))
+    image = c.bytes('image', n)
+    tinfo = target_info(c, tid)
+    cload = c.ext('cload', attrs={'targets': c.dict([(tid, tinfo)]), 'error_code': 0}, returns=cload_returns)
+    bl = bootloader(c, cload)
+    return bl, artifact(c, image, tname), ov
 
 
 def _if_modular(lens):
     @contract('C12', 'internal_flash.modular.len%d_%d' % (lens[0], lens[-1]), [BL + ':Bootloader._internal_flash'], max_paths=6000, clause=IF_CLAUSE,
-              bounded='image lengths %d..%d (content symbolic), every page size from 1 to length + 1 and 1024, 65535 (all page sizes >= length '
-                      'give a single page); buffer pages (>= 1), flash pages, start page, override, target address: any 16-bit / 8-bit value; '
+              bounded='image lengths %d..%d (content symbolic), page sizes 0 .. length + 1 and 1024, 65535 (every page size >= length gives '
+                      'a single page); buffer pages (>= 1), flash pages, start page, override, target address: any 16-bit / 8-bit value; '
                       'every pattern of failing flash-write commands' % (lens[0], lens[-1]))
     def if_modular(c):
         n = c.choice('n', list(lens))
-        ps = c.choice('ps', list(range(1, n + 2)) + [1024, 65535])
-        tname = c.choice('target', ['stm32', 'nrf51'])
-        tid = {'stm32': 0xFF, 'nrf51': 0xFE}[tname]
-        c.int('addr', 0, 255), c.let('ps', ps), c.int('bp', 1, 65535), c.int('fp', 0, 65535), c.int('sp', 0, 65535)
-        has_override = c.choice('has_override', [False, True])
-        ov = c.int('override', 0, 65535) if has_override else None
-        c.let('first', ov if has_override else c.get('sp'))
-        image = c.bytes('image', n)
+        ps = c.choice('ps', list(range(0, n + 2)) + [1024, 65535])
         oks = [c.bool('ok%d' % i) for i in range(n + 1)]
         it = iter(oks)
-        tinfo = target_info(c, tid)
-        cload = c.ext('cload', attrs={'targets': c.dict([(tid, tinfo)]), 'error_code': 0},
-                      returns={'write_flash': lambda *_a: next(it)})
-        bl = bootloader(c, cload)
+        bl, art, ov = modular_setup(c, n, ps, {'write_flash': lambda *_a: next(it)})
         c.reset_trace()
-        c.call((bl, '_internal_flash'), artifact(c, image, tname), 1, 1, ov)
-        if_modular_post(c, oks, n)
+        c.call((bl, '_internal_flash'), art, 1, 1, ov)
+        trace = c.get('trace')
+        c.snapshot('fits', 'len(image) <= (fp - first) * ps')
+        c.ensure('only-loader-calls', 'all(e[0] in ("cload.upload_buffer", "cload.write_flash") for e in trace)')
+        c.ensure('refused-before-anything-is-sent', "implies(not fits, raised == 'Exception' and len(trace) == 0)")
+        offs, all_ok = replay_loader_calls(c, list(enumerate(trace)), oks)
+        c.let('offs', tuple(offs))
+        c.snapshot('all_ok', all_ok)
+        c.ensure('no-error-when-all-writes-succeed', 'implies(fits and all_ok, raised is None)')
+        c.ensure('error-only-from-refusal-or-failed-write', "implies(raised is not None, raised == 'Exception' and (not fits or not all_ok))")
+        for q in range(n):
+            c.ensure('image-page%d-programmed' % q, 'implies(raised is None and %d * ps < len(image), any(o == %d for o in offs))' % (q, q))
     return if_modular
 
 
 for _lens in ((1, 2, 3, 4, 5, 6), (7, 8), (9,), (10,), (11,), (12,)):
     _if_modular(_lens)
+
+
+@contract('C12', 'internal_flash.callbacks', [BL + ':Bootloader._internal_flash'],
+          clause=IF_CLAUSE + ' - with the UI callbacks installed: progress reporting changes nothing that is sent, and a termination '
+                 'request aborts with an exception before the next page is loaded',
+          bounded='image length 5, page size 1, 2, 3 or 5; every pattern of termination requests; flash-write commands succeed')
+def if_callbacks(c):
+    n = 5
+    ps = c.choice('ps', [1, 2, 3, 5])
+    stops = [c.bool('stop%d' % i) for i in range(n + 1)]
+    it = iter(stops)
+    bl, art, ov = modular_setup(c, n, ps, {'write_flash': True})
+    c.let('pcb', c.ext('progress_cb'))
+    c.let('tcb', c.ext('terminate_cb', returns={'()': lambda *_a: next(it)}))
+    c.snapshot('_', 'setattr(bl, "progress_cb", pcb)')
+    c.snapshot('_', 'setattr(bl, "terminate_flashing_cb", tcb)')
+    c.reset_trace()
+    c.call((bl, '_internal_flash'), art, 1, 1, ov)
+    trace = c.get('trace')
+    c.snapshot('fits', 'len(image) <= (fp - first) * ps')
+    c.ensure('only-loader-and-callback-calls', 'all(e[0] in ("cload.upload_buffer", "cload.write_flash", "progress_cb", "terminate_cb") for e in trace)')
+    c.ensure('refused-before-anything-is-sent', "implies(not fits, raised == 'Exception' and not any(e[0].startswith('cload.') for e in trace))")
+    asked = sum(1 for e in trace if e[0] == 'terminate_cb')
+    c.snapshot('stopped', ' or '.join(['False'] + ['stop%d' % i for i in range(asked)]))
+    offs, _ = replay_loader_calls(c, [(i, e) for i, e in enumerate(trace) if e[0].startswith('cload.')], [True] * (n + 1))
+    c.let('offs', tuple(offs))
+    c.ensure('raises-iff-refused-or-terminated', "iff(raised is not None, not fits or stopped)")
+    c.ensure('abort-is-an-exception', "implies(raised is not None, raised == 'Exception')")
+    c.ensure('nothing-sent-after-termination-request', 'implies(stopped, trace[-1][0] == "terminate_cb")')
+    for q in range(n):
+        c.ensure('image-page%d-programmed' % q, 'implies(raised is None and %d * ps < len(image), any(o == %d for o in offs))' % (q, q))
 
 
 # ------------------------------------------------------------------------- end to end: real Bootloader + real Cloader + ghost target
@@ -395,31 +479,33 @@ def ghost_target(c, wire, ps, bp, n):
                 c.ensure('tx%d-page%d-inside-flash' % (k, j), '0 <= P < fp')
                 content = tuple(buf[bufpage + j])
                 c.let('content', content)
-                # "flash page P receives exactly image page P - first": proved through a witness q0 for P - first.  The witness
-                # is only a hint (found by looking for the image page the buffer content is identical to); the obligation
-                # itself states both that q0 is the page offset and that the content is that image page.
-                q0 = None
-                for q in range(npages):
-                    if content[0] is None or c.snapshot('_m', 'content[0] == image[%d]' % (q * ps)) is not True:
-                        continue
-                    if c.snapshot('_m', 'P - first == %d' % q) is False:
-                        continue
-                    q0 = q
-                    break
+                # "flash page P receives exactly image page P - first".  The native side always evaluates the statement itself.
+                # The symbolic side proves it through a witness q0 for P - first (the image page the buffer content is
+                # syntactically identical to): "P - first == q0 and content == page q0" implies the statement; it is an
+                # auxiliary obligation (class A), and without a witness the statement itself is the obligation.
                 name = 'tx%d-page%d-receives-exactly-its-image-page' % (k, j)
+                q0 = None
+                if c.backend == 'sym':
+                    for q in range(npages):
+                        if content[0] is not None and c.snapshot('_m', 'content[0] == image[%d]' % (q * ps)) is True and \
+                                c.snapshot('_m', 'P - first == %d' % q) is not False:
+                            q0 = q
+                            break
                 if q0 is not None:
                     c.let('q0', q0)
-                    c.ensure(name, 'P - first == q0 and all(content[j] == image[q0 * %d + j] for j in range(%d))' % (ps, min(ps, n - q0 * ps)))
-                else:       # no witness: the statement itself (the page offset is known to be in range from the obligations above)
-                    c.ensure(name, ' and '.join('implies(P - first == %d, all(content[j] == image[%d + j] for j in range(%d)))' % (
-                        q, q * ps, min(ps, n - q * ps)) for q in range(npages)))
+                    c.ensure(name + '/by-witness', 'P - first == q0 and all(content[j] == image[q0 * %d + j] for j in range(%d))' % (
+                        ps, min(ps, n - q0 * ps)), cls='A')
+                else:
+                    c.ensure(name, '0 <= P - first < %d and ' % npages + ' and '.join(
+                        'implies(P - first == %d, all(content[j] == image[%d + j] for j in range(%d)))' % (q, q * ps, min(ps, n - q * ps))
+                        for q in range(npages)))
                 offs.append(c.snapshot('_off', 'P - first'))
         else:
             c.ensure('tx%d-is-a-known-command' % k, 'False')
     return offs
 
 
-def e2e_setup(c, ps, bp, n, receive_script, fixed_target=None):
+def e2e_setup(c, ps, bp, n, receive_script, fixed_target=None, require_fits=False):
     tname = fixed_target or c.choice('target', ['stm32', 'nrf51'])
     tid = {'stm32': 0xFF, 'nrf51': 0xFE}[tname]
     c.int('addr', 0, 255), c.let('ps', ps), c.let('bp', bp), c.int('fp', 0, 65535), c.int('sp', 0, 65535)
@@ -435,9 +521,11 @@ def e2e_setup(c, ps, bp, n, receive_script, fixed_target=None):
     c.snapshot('_', 'setattr(cl, "link", link)')
     tinfo = target_info(c, tid)
     c.snapshot('_', 'cl.targets.update({%d: tinfo})' % tid)
+    c.snapshot('fits', 'len(image) <= (fp - first) * ps')
+    if require_fits:
+        c.require('fits')
     c.reset_trace()
     c.call((bl, '_internal_flash'), artifact(c, image, tname), 1, 1, ov)
-    c.snapshot('fits', 'len(image) <= (fp - first) * ps')
     return wire
 
 
@@ -502,8 +590,7 @@ def e2e_failing(c):
         else:
             out += [None] + scripted_replies(c, ['A'] * 6)
         return out + [None] * 40      # should the flashing go on regardless: every later reply is lost
-    wire = e2e_setup(c, ps, bp, n, script)
-    c.require('fits')
+    wire = e2e_setup(c, ps, bp, n, script, require_fits=True)
     c.ensure('aborts-with-exception', "raised == 'Exception'")
     ghost_target(c, wire, ps, bp, n)
     txs = [w for w in wire if w[0] == 'tx']
